@@ -55,6 +55,10 @@ checks = {
    technique="bounded-exhaustive enumeration of builder inputs against independent geometric constructions; the library's random source is an enumerated environment answer",
    text="Every non-collinear corner (prev, v, next) on the 5x5 integer grid (13k geometries, both turning directions, short edges) x radius {1/8,1/2,1,3} x facets {1,2,5,6}, as the middle vertex of an open polygon and as the first vertex of a closed one, smoothed and chamfered: left unchanged iff the tangent distance r/tan(theta/2) exceeds an adjacent edge, else facets+1 points from tangent point to tangent point on the circle centred on the bisector at r/sin(theta/2) in equal steps. Arcs over all 600 grid chords x |r| in {d/2(1+2^-20), d, 4d} x both signs x facets {2,3,8}. All relative/polar chains of length 2-4 over a 6-entry menu; N-gons 3..32. Bezier: every control polygon of degree 1-3 (every 6th of degree 4; all thorough) on the 3x3 grid, open and closed: every vertex is the de Casteljau point at a multiple of 1/512 in increasing order, exact end points, degree-1 exact; the random perturbation is answered from {1/4; 0, 3/4, 1-2^-53} with single deviations at the first 12 calls and pairs among the first 4; 648 handle specifications.",
    note="corners with the tangent distance within 1e-9 of an edge length are skipped; handle-specified end points compared to 1e-12"),
+ "C18": dict(engine="E", design="3/C18",
+   technique="exhaustive enumeration of the thread database x configuration menus against independent standard tables and lattice evaluation",
+   text="Every key of the thread database (via an export shim; 82 today): the name must parse under the metric / UNC / UNF / NPT grammar and radius, pitch, taper and units must equal an independently typed table of the standard series; ToMillimetre scales by 25.4, is idempotent, and neither it nor ThreadedCylinderParms.Object may change what a later lookup returns (history). Screw3D(ISOThread) for starts {1,-1,2,-2,3}: f(p) == f(rotate(p, dphi) + starts*pitch*dphi/2pi z) for 4 angles and f(p) == f(p + pitch z) on a 13x12x49 cylindrical lattice at least one pitch from the ends (5 threads quick, all thorough). Mating for EVERY entry (tapered too): with bolt/nut tolerances (0,0),(0.05p,0),(0,0.05p),(0.2p,0.2p) no lattice point (33 radii across the thread depth x 8 angles x 48 steps/pitch) is inside both the external thread and the material left by the internal cutter; same against obj.Nut.",
+   note="space sampled on a cylindrical lattice; standard tables typed into the harness"),
 }
 props = [json.loads(l) for l in open(os.path.join(V, "properties.jsonl"))]
 pending_reason = "check not built yet in this session (work in progress, see DESIGN.md section 3 for the planned bounded-exhaustive check)"
